@@ -39,8 +39,8 @@ func init() {
 	families["C18"] = clientFamily
 }
 
-// COp is one operation of a client history.
-type COp struct {
+// KOp is one operation of a client history.
+type KOp struct {
 	K     string           `json:"k"`              // getstatus getstatusasync getrules deleterules deleterule addrule setpid setratelimit setbackloglimit setenabled setimmutable setfailure setbacklogwaittime wait close receive
 	Rule  string           `json:"rule,omitempty"` // hex
 	V     uint32           `json:"v,omitempty"`
@@ -53,7 +53,7 @@ type COp struct {
 }
 
 // failureMode is the argument SetFailure is called with.
-func failureMode(op COp) libaudit.FailureMode {
+func failureMode(op KOp) libaudit.FailureMode {
 	switch op.FM {
 	case "silent":
 		return libaudit.SilentOnFailure
@@ -65,7 +65,7 @@ func failureMode(op COp) libaudit.FailureMode {
 	return libaudit.FailureMode(op.V)
 }
 
-func maxDatagram(c CCase) int {
+func maxDatagram(c KCase) int {
 	bl := c.BufLen
 	for _, op := range c.Ops { // the ONE receive buffer must hold the largest datagram of the case
 		for _, it := range op.Pre {
@@ -84,13 +84,13 @@ func maxDatagram(c CCase) int {
 	return bl
 }
 
-// CCase is one generated case of the client family.
-type CCase struct {
+// KCase is one generated case of the client family.
+type KCase struct {
 	Kind      string `json:"kind"` // history | fromwire | perr | consts | concclose | echo | spoof | concsend
 	Seq0      uint32 `json:"seq0,omitempty"`
 	BufLen    int    `json:"buf_len,omitempty"`
 	CloseFail bool   `json:"close_fail,omitempty"`
-	Ops       []COp  `json:"ops,omitempty"`
+	Ops       []KOp  `json:"ops,omitempty"`
 	// fromwire
 	Prior string `json:"prior,omitempty"` // hex, 44 bytes: the receiver's previous content
 	Buf   string `json:"buf,omitempty"`   // hex: the buffer decoded (fromwire), the payload (perr, echo), the datagram (spoof)
@@ -108,7 +108,7 @@ type CCase struct {
 	Multicast bool `json:"multicast,omitempty"`
 }
 
-func (c CCase) canon() string { b, _ := json.Marshal(c); return string(b) }
+func (c KCase) canon() string { b, _ := json.Marshal(c); return string(b) }
 
 func isSetter(k string) bool { return strings.HasPrefix(k, "set") }
 
@@ -149,7 +149,7 @@ func statusFromWords(w [11]uint32) libaudit.AuditStatus {
 		BacklogLimit: w[5], Lost: w[6], Backlog: w[7], FeatureBitmap: w[8], BacklogWaitTime: w[9], BacklogWaitTimeActual: w[10]}
 }
 
-func hexList(bs [][]byte) string {
+func kHexList(bs [][]byte) string {
 	if len(bs) == 0 {
 		return "none"
 	}
@@ -179,8 +179,8 @@ func pendingOf(c *libaudit.AuditClient) string {
 	return strings.Join(p, ",")
 }
 
-// cObs is what one operation did on the real client.
-type cObs struct {
+// kObs is what one operation did on the real client.
+type kObs struct {
 	Ret       string
 	Data      string
 	Err       error
@@ -215,7 +215,7 @@ func renderSent(ss []simkernel.Sent) string {
 }
 
 type clientRun struct {
-	Obs      []cObs
+	Obs      []kObs
 	Kept     [][]byte // every byte slice the client returned, as returned (aliases included)
 	KeptSnap [][]byte // copies taken when they were returned
 	KeptRule []bool   // came from GetRules
@@ -223,10 +223,10 @@ type clientRun struct {
 	Pid      uint32
 }
 
-func wm(op COp) libaudit.WaitMode { return libaudit.WaitMode(op.WM) }
+func wm(op KOp) libaudit.WaitMode { return libaudit.WaitMode(op.WM) }
 
 // runClientImpl runs a history on the real AuditClient over the simulated kernel.
-func runClientImpl(c CCase) *clientRun {
+func runClientImpl(c KCase) *clientRun {
 	bl := maxDatagram(c)
 	sim := simkernel.New(c.Seq0, bl, c.CloseFail)
 	cl := &libaudit.AuditClient{Netlink: sim}
@@ -237,7 +237,7 @@ func runClientImpl(c CCase) *clientRun {
 		sim.Enqueue(op.Pre)
 		nS, nR, _, _ := sim.Counts()
 		nE := len(sim.Events)
-		o := cObs{QBefore: append([]simkernel.Resolved(nil), sim.Queue...), SeqBefore: seq}
+		o := kObs{QBefore: append([]simkernel.Resolved(nil), sim.Queue...), SeqBefore: seq}
 		func() {
 			defer func() {
 				if r := recover(); r != nil {
@@ -307,7 +307,7 @@ func runClientImpl(c CCase) *clientRun {
 				case "getstatusasync":
 					o.Data = "seq:" + strconv.FormatUint(uint64(o.Seq), 10)
 				case "getrules":
-					o.Data = "rules:" + hexList(o.Rules)
+					o.Data = "rules:" + kHexList(o.Rules)
 					for _, r := range o.Rules {
 						run.Kept = append(run.Kept, r)
 						run.KeptSnap = append(run.KeptSnap, append([]byte(nil), r...))
@@ -327,7 +327,7 @@ func runClientImpl(c CCase) *clientRun {
 			len(o.Recvs), o.Pending, o.Closes, o.Queue)
 		run.Obs = append(run.Obs, o)
 	}
-	run.Late = hexList(run.Kept)
+	run.Late = kHexList(run.Kept)
 	return run
 }
 
@@ -373,16 +373,9 @@ func b01(b bool) string {
 	return "0"
 }
 
-func hexOrDash(h string) string {
-	if h == "" {
-		return "-"
-	}
-	return h
-}
-
 // clientModelLines renders the history for the Lean driver; three lines per operation
 // (plans, enqueue, op) after the `new` line, and a final `late`.
-func clientModelLines(c CCase, run *clientRun) []string {
+func clientModelLines(c KCase, run *clientRun) []string {
 	bl := maxDatagram(c)
 	lines := []string{fmt.Sprintf("cli new %d %d %s", c.Seq0, bl, b01(!c.CloseFail))}
 	for _, op := range c.Ops {
@@ -447,7 +440,7 @@ func hexBytes(h string) []byte {
 }
 
 // runClientCase executes one case on implementation and model and returns the violation found, if any.
-func runClientCase(ctx *Ctx, m *common.Model, c CCase, idx int) *common.Violation {
+func runClientCase(ctx *Ctx, m *common.Model, c KCase, idx int) *common.Violation {
 	switch c.Kind {
 	case "history":
 		return runHistoryCase(ctx, m, c, idx)
@@ -469,7 +462,7 @@ func runClientCase(ctx *Ctx, m *common.Model, c CCase, idx int) *common.Violatio
 	return &common.Violation{Kind: "correspondence", Clause: "harness: unknown case kind " + c.Kind, Input: c, Case: idx}
 }
 
-func runHistoryCase(ctx *Ctx, m *common.Model, c CCase, idx int) *common.Violation {
+func runHistoryCase(ctx *Ctx, m *common.Model, c KCase, idx int) *common.Violation {
 	run := runClientImpl(c)
 	impl := make([]string, len(run.Obs))
 	for i := range run.Obs {
@@ -527,7 +520,7 @@ func runHistoryCase(ctx *Ctx, m *common.Model, c CCase, idx int) *common.Violati
 
 // runFromWireCase: FromWireFormat into a reused (dirty) receiver, buffer placed inside a larger
 // array so that a read beyond len(buf) would pick up sentinel bytes.
-func runFromWireCase(ctx *Ctx, m *common.Model, c CCase, idx int) *common.Violation {
+func runFromWireCase(ctx *Ctx, m *common.Model, c KCase, idx int) *common.Violation {
 	prior, buf := hexBytes(c.Prior), hexBytes(c.Buf)
 	var pw [11]uint32
 	for i := range pw {
@@ -616,7 +609,7 @@ func lenBucket(n int) string {
 }
 
 // runPerrCase: ParseNetlinkError on an arbitrary payload.
-func runPerrCase(ctx *Ctx, m *common.Model, c CCase, idx int) *common.Violation {
+func runPerrCase(ctx *Ctx, m *common.Model, c KCase, idx int) *common.Violation {
 	buf := hexBytes(c.Buf)
 	arena := make([]byte, len(buf)+16)
 	for i := range arena {
@@ -689,7 +682,7 @@ func clientFamily(ctx *Ctx) error {
 			return err
 		}
 		var rp struct {
-			Input CCase `json:"input"`
+			Input KCase `json:"input"`
 		}
 		if err := json.Unmarshal(b, &rp); err != nil {
 			return err
@@ -697,7 +690,7 @@ func clientFamily(ctx *Ctx) error {
 		return replayClientCase(ctx, m, rp.Input)
 	}
 
-	report := func(v *common.Violation, c CCase) {
+	report := func(v *common.Violation, c KCase) {
 		if v == nil {
 			return
 		}
@@ -716,7 +709,7 @@ func clientFamily(ctx *Ctx) error {
 			if err != nil {
 				return err
 			}
-			var c CCase
+			var c KCase
 			if err := json.Unmarshal(b, &c); err != nil {
 				return fmt.Errorf("%s: %w", f, err)
 			}
@@ -750,12 +743,12 @@ func fileExists(p string) bool {
 	return err == nil
 }
 
-func runClientCaseQuiet(ctx *Ctx, m *common.Model, c CCase) *common.Violation {
+func runClientCaseQuiet(ctx *Ctx, m *common.Model, c KCase) *common.Violation {
 	tmp := &Ctx{Prop: ctx.Prop, Tier: ctx.Tier, Seed: ctx.Seed, Rng: ctx.Rng, Res: common.NewResult(ctx.Prop, ctx.Tier, ctx.Seed)}
 	return runClientCase(tmp, m, c, 0)
 }
 
-func replayClientCase(ctx *Ctx, m *common.Model, c CCase) error {
+func replayClientCase(ctx *Ctx, m *common.Model, c KCase) error {
 	fmt.Printf("case kind=%s\n", c.Kind)
 	if c.Kind == "history" {
 		run := runClientImpl(c)
@@ -781,7 +774,7 @@ func replayClientCase(ctx *Ctx, m *common.Model, c CCase) error {
 }
 
 // shrinkClient removes operations and plan items while the case still fails the same way.
-func shrinkClient(ctx *Ctx, m *common.Model, c CCase, v *common.Violation) CCase {
+func shrinkClient(ctx *Ctx, m *common.Model, c KCase, v *common.Violation) KCase {
 	if c.Kind != "history" {
 		return c
 	}
@@ -791,11 +784,11 @@ func shrinkClient(ctx *Ctx, m *common.Model, c CCase, v *common.Violation) CCase
 		}
 		return cl
 	}
-	fails := func(x CCase) bool {
+	fails := func(x KCase) bool {
 		v2 := runClientCaseQuiet(ctx, m, x)
 		return v2 != nil && v2.Kind == v.Kind && (v.Kind != "monitor" || prop(v2.Clause) == prop(v.Clause))
 	}
-	hasEagain := func(x CCase) bool { return strings.Contains(x.canon(), `"eagain"`) }
+	hasEagain := func(x KCase) bool { return strings.Contains(x.canon(), `"eagain"`) }
 	budget := 400
 	if hasEagain(c) {
 		budget = 60
@@ -804,7 +797,7 @@ func shrinkClient(ctx *Ctx, m *common.Model, c CCase, v *common.Violation) CCase
 		changed = false
 		for i := 0; i < len(c.Ops) && budget > 0; i++ {
 			x := c
-			x.Ops = append(append([]COp{}, c.Ops[:i]...), c.Ops[i+1:]...)
+			x.Ops = append(append([]KOp{}, c.Ops[:i]...), c.Ops[i+1:]...)
 			budget--
 			if fails(x) {
 				c, changed = x, true
@@ -829,9 +822,9 @@ func shrinkClient(ctx *Ctx, m *common.Model, c CCase, v *common.Violation) CCase
 	return c
 }
 
-func cloneCase(c CCase) CCase {
+func cloneCase(c KCase) KCase {
 	b, _ := json.Marshal(c)
-	var x CCase
+	var x KCase
 	json.Unmarshal(b, &x)
 	return x
 }
